@@ -108,7 +108,7 @@ def run(prop, tier, seed, replay):
     from yaw.redshifts import HistData
 
     # (what travels to the workers by pickle is defined by the methods the classes have: Yaw.C17.class_methods)
-    ck = Check(prop, tier, seed, kernels=["k_schedule", "k_algebra"], theorems=THEOREMS + ["Yaw.C17.class_methods"],
+    ck = Check(prop, tier, seed, kernels=["k_schedule", "k_algebra", "k_wrappers"], theorems=THEOREMS + ["Yaw.C17.class_methods", "Yaw.C05.progress_wrapper_transparent", "Yaw.C05.progress_wrapper_flags"],
                lean_modules=["YawVerif.Props.C05", "YawVerif.Props.C17"], rule=RULE,
                assumptions=["Pool.imap_unordered returns every result exactly once in SOME order (PARTIAL: the OS scheduler "
                             "is replaced by the controlled permutation; real pools are sampled)",
